@@ -33,6 +33,9 @@ inductive PC where
   | doneOk (idx : Nat)      -- returned index idx+1
   | doneErr                 -- returned ErrPttLock (or the kernel's error)
   | lockFailed              -- the kernel lock call has returned an error, the lock function has not yet returned
+  | bodyFailed              -- Seek or BinaryWrite returned an error under the lock; the deferred GoFunlock is pending
+  | unlockedErr             -- …its flock(LOCK_UN) is done, unlockFD pending
+  | doneFail                -- returned the error of Seek / BinaryWrite
   deriving DecidableEq, Repr, Inhabited
 
 structure Sys where
@@ -66,13 +69,19 @@ def step (proc : Nat → Nat) (cl : Bool) (s : Sys) (t : Nat) : Option Sys :=
   | .lockFailed =>
       if cl then some { s with pc := setPc s t .doneErr, table := setTable s (proc t) false }
       else some { s with pc := setPc s t .doneErr }
+  | .bodyFailed => some { s with pc := setPc s t .unlockedErr, holder := none }
+  | .unlockedErr => some { s with pc := setPc s t .doneFail, table := setTable s (proc t) false }
   | .doneOk _ => none
   | .doneErr => none
+  | .doneFail => none
 
-/-- the kernel lock call of thread `t` fails (for whatever reason) instead of succeeding or blocking. -/
+/-- a system call of thread `t` fails (for whatever reason) instead of succeeding or blocking: the kernel
+lock call at flock, or — under the lock — the seek or the write (EFBIG, ENOSPC, EIO; a failed write adds no
+whole record: lengths are counted in whole records and the next appender starts at the last whole one). -/
 def failStep (s : Sys) (t : Nat) : Option Sys :=
   match s.pc t with
   | .wantFlock => some { s with pc := setPc s t .lockFailed }
+  | .haveLock | .seeked _ => some { s with pc := setPc s t .bodyFailed }
   | _ => none
 
 /-- every lock function takes the key out of the table again when the kernel lock is not obtained. -/
@@ -103,7 +112,8 @@ A "release" lets a thread run from its current hook point to the next one:
   seg 2: afterLock → afterSeek        seekEnd
   seg 3: afterSeek → afterWrite       write
   seg 4: afterWrite → return          funlock; unlockFD
-A thread blocked in flock acquires it as soon as the holder releases (at most one waiter in the driven cases). -/
+A thread blocked in flock acquires it as soon as the holder releases (at most one waiter in the driven cases).
+Processes numbered 50 and up run under a file-size limit equal to the initial file size: their writes fail. -/
 
 structure Sched where
   sys : Sys
@@ -156,10 +166,27 @@ def release (proc : Nat → Nat) (cl : Bool) (nThreads : Nat) (sc : Sched) (t : 
             match step proc cl s1 t with          -- flock
             | some s2 => { sc with sys := s2 }
             | none => { sc with sys := s1, blocked := fun u => if u = t then true else sc.blocked u }
-    | .haveLock | .seeked _ =>
+    | .haveLock =>
         match step proc cl sc.sys t with
         | some s1 => { sc with sys := s1 }
         | none => sc
+    | .seeked _ =>
+        if 50 ≤ proc t then
+          -- a process whose writes fail (file-size limit reached): BinaryWrite returns the error, the
+          -- deferred GoFunlock runs, the call returns — no hook point in between
+          match failStep sc.sys t with
+          | none => sc
+          | some s1 =>
+            match step proc cl s1 t with         -- funlock
+            | none => { sc with sys := s1 }
+            | some s2 =>
+              match step proc cl s2 t with       -- unlockFD, return
+              | some s3 => wake proc cl nThreads { sc with sys := s3 }
+              | none => { sc with sys := s2 }
+        else
+          match step proc cl sc.sys t with
+          | some s1 => { sc with sys := s1 }
+          | none => sc
     | .written _ =>
         match step proc cl sc.sys t with          -- funlock
         | none => sc
@@ -179,6 +206,9 @@ def showPC : PC → String
   | .doneOk i => s!"ok:{i + 1}"
   | .doneErr => "err"
   | .lockFailed => "lockfailed"
+  | .bodyFailed => "bodyfailed"
+  | .unlockedErr => "unlockederr"
+  | .doneFail => "err:write"
 
 def showRec : Option Nat → String
   | none => "_"
